@@ -11,7 +11,7 @@ def core_schema(mutation=True, subscription=True):
                      ("since", "Date"), ("score", "Float"), ("active", "Boolean!"),
                      FieldDef("legacy", "String", dep=("use label",))], ["Node", "Named"]),
         # Org refines the interface's nullable `label` to non-null (legal covariance)
-        obj("Org", [("id", "ID!"), ("label", "String!"), ("name", "String!"), ("members", "[User!]"),
+        obj("Org", [("id", "ID!"), ("label", "String!"), ("name", "String!"), ("members", "[User!]"), ("memberIds", "[ID!]!"),
                     ("owner", "User!"), ("kind", "Role!")], ["Node", "Named"]),
         obj("Bot", [("id", "ID!"), ("label", "String"), ("version", "Int!")], ["Node"]),
         obj("Cat", [("name", "String!"), ("lives", "Int")]),
@@ -25,13 +25,15 @@ def core_schema(mutation=True, subscription=True):
         enum("sort_order", ["ASC", "desc"]),
         obj("http_error", [("code", "Int!"), ("stamp", "date_time"), ("order", "sort_order")]),
         union("Outcome", ["User", "http_error"]),
-        inp("search_input", [("order", "sort_order"), ("term", "String"), ("at", "date_time")]),
+        # ... and input fields whose names are Rust keywords (their Rust field is escaped, the key on the wire is not)
+        inp("search_input", [("order", "sort_order"), ("term", "String"), ("at", "date_time"), ("type", "String"), ("in", "[Int!]"),
+                             ("where", "Range")]),
         obj("Q", [("me", "User!"), ("node", "Node"), ("nodes", "[Node!]!"), ("named", "Named"), ("thing", "Thing"),
                   ("things", "[Thing]!"), ("pet", "Pet"),
                   FieldDef("user", "User", args=[("id", "ID!")]),
                   FieldDef("search", "[Node!]", args=[("filter", "Filter"), ("first", "Int", "1")]),
                   ("userFriend", "User"), ("version", "String!"), ("count", "Int"),
-                  ("grid", "[[Int!]]!"), ("rows", "[[String!]!]"),
+                  ("grid", "[[Int!]]!"), ("rows", "[[String!]!]"), ("ids", "[ID]!"),
                   FieldDef("find", "Outcome", args=[("input", "search_input")]), ("outcomes", "[Outcome!]")]),
         inp("Filter", [("text", "String"), ("role", "Role"), ("ids", "[ID!]"), ("and", "Filter"),
                        ("not", "[Filter!]"), ("range", "Range!"), ("pick", "Pick")]),
@@ -62,6 +64,9 @@ def fragment_library():
     F["UserT"] = FragDef("UserT", "User", [TN(), Field("name")])
     F["UserX"] = FragDef("UserX", "User", [Field("extId"), Field("age"), Field("aliases")])
     F["CatT"] = FragDef("CatT", "Cat", [TN(), Field("lives")])
+    # fragments on an abstract type that get `__typename` only through another fragment (chain of three)
+    F["CardN"] = FragDef("CardN", "Node", [Spread("NodeF"), Field("label")])
+    F["ChainN"] = FragDef("ChainN", "Node", [Spread("CardN")])
     F["UserRec"] = FragDef("UserRec", "User", [Field("id"), Field("friends", [Spread("UserRec")])])
     F["NodeRec"] = FragDef("NodeRec", "Node", [TN(), Field("id"),
                                                  Inline("User", [Field("friend", [Spread("NodeRec")])])])
@@ -109,6 +114,7 @@ def items_node():
         ("...NodeF", Spread("NodeF")), ("...UserA", Spread("UserA")), ("...UserB", Spread("UserB")),
         ("...OrgF", Spread("OrgF")), ("...NodeRec", Spread("NodeRec")), ("...UserT", Spread("UserT")),
         ("on User{extId}", Inline("User", [Field("extId")])), ("...UserX", Spread("UserX")), ("on Org{label}", Inline("Org", [Field("label")])),
+        ("on Org{memberIds}", Inline("Org", [Field("memberIds")])), ("...CardN", Spread("CardN")), ("...ChainN", Spread("ChainN")),
     ]
 
 
@@ -126,7 +132,7 @@ def items_root():
         ("version", Field("version")), ("count", Field("count")), ("v:version", Field("version", alias="v")),
         ("__typename", TN()), ("me", Field("me", [Field("id")])), ("node", Field("node", [TN(), Field("id")])),
         ("user", Field("user", [Field("name")], args=[("id", "$id")])), ("...QF", Spread("QF")),
-        ("on Q", Inline("Q", [Field("count")])), ("grid", Field("grid")), ("rows", Field("rows")),
+        ("on Q", Inline("Q", [Field("count")])), ("grid", Field("grid")), ("rows", Field("rows")), ("ids", Field("ids")),
         ("outcomes", Field("outcomes", [TN(), Inline("http_error", [Field("code"), Field("stamp"), Field("order")]), Inline("User", [Field("name")])])),
     ]
 
